@@ -8,14 +8,31 @@
                                                -> RunContext.Flush: head, then body, in place (CtxHead, CtxBody)
                    ChainDatabase.SetConfirms   -> BeansDB.Put(block with confirms)      (Confirm)
        every BeansDB write = FileQueue.Put/PutBatch: emptyFile (delete tmp.data when the in-memory index is empty),
-       ONE write+fsync of the encoded records at the end of tmp.data, then delivery to the async writer.
+       ONE write+fsync of the encoded records at FileQueue.Offset of tmp.data, then delivery to the async writer.
      async writer  SyncFileDB.start -> BitCask.Put: data write+fsync at CurOffset (WData), leveldb.SetPos (WPos),
                    leveldb.SetCurrentPos (WCur), then FileQueue.afterPut drops the index entry.
      recovery      NewChainDataBase: NewRunContext.Load (RLoadCtx), BeansDB.Start: bitcasks reopen at the persisted
-                   CurrentPos and FileQueue.scanFile redelivers every record of tmp.data (RScan), GetStableBlock (RStable).
-   Faults: Crash at any point (also during recovery): volatile state is lost, every completed write persists.
+                   CurrentPos and FileQueue.scanFile walks tmp.data RECORD BY RECORD from offset 0 and redelivers each
+                   record it finds (RScanRec ... RScanEnd), GetStableBlock (RStable).
+   Faults: Crash at any point (also during recovery, also between two scanned records): volatile state is lost,
+           every completed write persists.
            TornWalCrash / TornCtxCrash: a prefix of the in-flight file write reaches the file.
            LevelDB Puts are atomic.
+
+   On-disk record format.  tmp.data and the bitcask data files are sequences of 256-byte SLOTS: a record (18-byte head +
+   rlp body) is zero-padded to the next multiple of 256 (FileUtilsAlign), the low byte of a bitcask position is the
+   file index.  Every record carries a LENGTH CLASS relative to such a boundary - the only thing about its length
+   that the formats can be sensitive to:
+       "below"  head+body = k*256 - 1   one byte of padding       (every record that is not on a boundary behaves so)
+       "on"     head+body = k*256       no padding at all
+       "above"  head+body = k*256 + 1   255 bytes of padding, one slot more
+   (modelled with k = 1: 1, 1 and 2 slots).  The main thread picks the class of every record it writes; MaxEdge bounds
+   how many records of one behaviour are not "below".
+     ScanStride   how the recovery scan gets from one record to the next:
+                  "align"     offset + FileUtilsAlign(head + body)              - what the code does
+                  "nextblock" (offset + head + body) / 256 * 256 + 256          - negative control: right except "on"
+     CaskAdvance  how BitCask.Put advances CurOffset: "align" (the code) | "floor" (len / 256 * 256, min one slot -
+                  negative control: right except "above")
 
    Repair flags.  FALSE = what the code does, TRUE = the deviation-free design the property is checked on:
      RepairTornTail      recovery verifies the record checksums and truncates tmp.data back to the last complete
@@ -26,22 +43,35 @@
                          and re-derives context.data from it - what ChainDatabase.AfterScan was written for but is not
                          wired to (code: the batch is redelivered, pointer and candidate list stay behind) *)
 EXTENDS Naturals, Sequences, FiniteSets, TLC
-CONSTANTS NB, MaxCrash, RepairTornTail, RepairAtomicContext, RepairScanPromotes
+CONSTANTS NB, MaxCrash, RepairTornTail, RepairAtomicContext, RepairScanPromotes, MaxEdge, ScanStride, CaskAdvance
 
 TORN == NB + 1
-None == [k |-> "none", b |-> 0, v |-> 0, bad |-> FALSE]
-R(k, b, v) == [k |-> k, b |-> b, v |-> v, bad |-> FALSE]
+LenClasses == {"below", "on", "above"}
+None == [k |-> "none", b |-> 0, v |-> 0, bad |-> FALSE, lc |-> "below"]
+R(k, b, v, lc) == [k |-> k, b |-> b, v |-> v, bad |-> FALSE, lc |-> lc]
 Key(r) == IF r.k = "acct" THEN <<"acct", 0>> ELSE <<r.k, r.b>>     \* one account key: its value is "accounts as of block b"
 Keys == {<<"acct", 0>>} \cup {<<k, b>> : k \in {"blk", "trie"}, b \in 1..NB}
 ToSet(s) == {s[i] : i \in 1..Len(s)}
 
+(* ---- the 256-byte format ---- *)
+Slots(r) == IF r.lc = "above" THEN 2 ELSE 1                         \* FileUtilsAlign(head + body) / 256
+Stride(r) == IF ScanStride = "align" THEN Slots(r)                  \* scanFile: from this record to the next
+             ELSE IF r.lc = "below" THEN 1 ELSE 2                   \* (end / 256 + 1): one slot too many exactly for "on"
+Advance(r) == IF CaskAdvance = "align" THEN Slots(r) ELSE 1         \* BitCask.Put: CurOffset += ...
+RECURSIVE SlotsOf(_)
+SlotsOf(recs) == IF recs = <<>> THEN 0 ELSE Slots(recs[1]) + SlotsOf(Tail(recs))
+Edge(recs) == Cardinality({i \in 1..Len(recs) : recs[i].lc # "below"})
+
 VARIABLES
-  wal,        \* tmp.data: Seq of write units [recs: Seq(record), n: number of complete records on disk, tail]
+  wal,        \* tmp.data: Seq of write units [recs: Seq(record), n: number of complete records on disk, tail, w]
               \*   tail = "ok" (all of it) | "eof" (torn, reads as end of file) | "bad" (torn, does not decode) | "zero" (torn, zero-filled record parses)
+              \*        | "hole" (w slots that were never written: the file was extended beyond its end)
+  woff,       \* volatile FileQueue.Offset (slots): where the next write unit goes
+  so,         \* volatile: offset (slots) of the recovery scan
   queue,      \* volatile: records delivered to the async writer, not yet taken
   wrec, wpc,  \* volatile: record in BitCask.Put and its program counter
-  file,       \* bitcask data file: Seq of records (slots)
-  pos,        \* LevelDB position index: key -> slot (0 = none)
+  file,       \* bitcask data file: Seq of slots [r: record, part: 1..Slots(r)]
+  pos,        \* LevelDB position index: key -> first slot (0 = none)
   curDisk,    \* LevelDB CurrentPos of the bitcask (slots durably handed out)
   curMem,     \* volatile BitCask.CurOffset
   ptr,        \* LevelDB stable pointer (block number)
@@ -50,146 +80,221 @@ VARIABLES
   rpc,        \* "up" | "down" | recovery step
   completed,  \* history: last block whose promotion returned
   opened,     \* "ok" | "panic": did a recovery step panic
-  crashes
-vars == <<wal, queue, wrec, wpc, file, pos, curDisk, curMem, ptr, ctx, pc, cur, rpc, completed, opened, crashes>>
+  crashes,
+  edge        \* history: records written so far whose length class is not "below"
+vars == <<wal, woff, so, queue, wrec, wpc, file, pos, curDisk, curMem, ptr, ctx, pc, cur, rpc, completed, opened, crashes, edge>>
 
-Init == /\ wal = <<>> /\ queue = <<>> /\ wrec = None /\ wpc = "idle"
+Init == /\ wal = <<>> /\ woff = 0 /\ so = 0 /\ queue = <<>> /\ wrec = None /\ wpc = "idle"
         /\ file = <<>> /\ pos = [k \in Keys |-> 0] /\ curDisk = 0 /\ curMem = 0
-        /\ ptr = 0 /\ ctx = 0 /\ pc = "idle" /\ cur = 0 /\ rpc = "up" /\ completed = 0 /\ opened = "ok" /\ crashes = 0
+        /\ ptr = 0 /\ ctx = 0 /\ pc = "idle" /\ cur = 0 /\ rpc = "up" /\ completed = 0 /\ opened = "ok" /\ crashes = 0 /\ edge = 0
 
 (* ---- reads: FileQueue.Get = in-memory index of undelivered records first, then position index + data file ---- *)
 Pending == (IF wpc = "idle" THEN <<>> ELSE <<wrec>>) \o queue
 RECURSIVE LastWith(_, _)
 LastWith(s, key) == IF s = <<>> THEN None
                     ELSE IF Key(s[Len(s)]) = key THEN s[Len(s)] ELSE LastWith(SubSeq(s, 1, Len(s) - 1), key)
-DiskRead(key) == IF pos[key] = 0 \/ pos[key] > Len(file) THEN None
-                 ELSE IF Key(file[pos[key]]) = key THEN file[pos[key]] ELSE None      \* BitCask.get: key mismatch -> nil
+\* BitCask.get reads head + body at the indexed slot: a wrong key -> nil; a record whose later slots were overwritten
+\* fails its checksum
+DiskRead(key) == LET p == pos[key] IN
+                 IF p = 0 \/ p > Len(file) THEN None
+                 ELSE LET r == file[p].r IN
+                      IF file[p].part # 1 \/ Key(r) # key THEN None
+                      ELSE IF \A i \in 1..Slots(r) : p + i - 1 <= Len(file) /\ file[p + i - 1] = [r |-> r, part |-> i]
+                           THEN r ELSE [r EXCEPT !.bad = TRUE]
 Read(key) == LET p == LastWith(Pending, key) IN IF p # None THEN p ELSE DiskRead(key)
 Good(r) == r # None /\ ~r.bad
 
-(* ---- tmp.data ---- *)
-Unit(recs) == [recs |-> recs, n |-> Len(recs), tail |-> "ok"]
-\* emptyFile + FileUtilsFlush + deliver.  A crash between them differs from a crash after them only in volatile state.
-WalAppend(recs) == /\ wal' = (IF Pending = <<>> THEN <<>> ELSE wal) \o <<Unit(recs)>>
-                /\ queue' = queue \o recs
-\* what scanFile sees: complete records of every unit, plus the zero-filled record of a torn one
-Visible(u) == SubSeq(u.recs, 1, u.n) \o (IF u.tail = "zero" THEN <<[u.recs[u.n + 1] EXCEPT !.bad = TRUE]>> ELSE <<>>)
-RECURSIVE Flatten(_)
-Flatten(w) == IF w = <<>> THEN <<>> ELSE Visible(w[1]) \o Flatten(Tail(w))
-CompleteUnits(w) == SelectSeq(w, LAMBDA u : u.tail = "ok")
+(* ---- tmp.data as a sequence of slots ---- *)
+Unit(recs) == [recs |-> recs, n |-> Len(recs), tail |-> "ok", w |-> 0]
+Hole(w) == [recs |-> <<>>, n |-> 0, tail |-> "hole", w |-> w]
+\* what lies in the file, element by element: complete records (whole = their write unit is complete), then the torn
+\* record of a torn unit, or a hole.  s = slots the element occupies.
+Elems(u) == [i \in 1..u.n |-> [t |-> "rec", r |-> u.recs[i], whole |-> u.tail = "ok", s |-> Slots(u.recs[i])]]
+            \o (IF u.tail \in {"eof", "bad", "zero"}
+                THEN <<[t |-> u.tail, r |-> u.recs[u.n + 1], whole |-> FALSE, s |-> Slots(u.recs[u.n + 1])]>>
+                ELSE IF u.tail = "hole" THEN <<[t |-> "hole", r |-> None, whole |-> FALSE, s |-> u.w]>> ELSE <<>>)
+RECURSIVE FlatE(_)
+FlatE(w) == IF w = <<>> THEN <<>> ELSE Elems(w[1]) \o FlatE(Tail(w))
+RECURSIVE OffOf(_, _)
+OffOf(F, i) == IF i <= 1 THEN 0 ELSE OffOf(F, i - 1) + F[i - 1].s         \* slot at which element i starts
+TotalSlots(w) == LET F == FlatE(w) IN OffOf(F, Len(F) + 1)
+\* one read of scanFile (FileUtilsRead) that hits the first slot of element e
+StepOn(e, o) ==
+  IF e.t = "rec" THEN IF RepairTornTail /\ ~e.whole THEN [t |-> "stop"]
+                      ELSE [t |-> "rec", r |-> e.r, next |-> o + Stride(e.r)]
+  ELSE IF e.t = "zero" /\ ~RepairTornTail THEN [t |-> "rec", r |-> [e.r EXCEPT !.bad = TRUE], next |-> o + Stride(e.r)]
+  ELSE IF e.t = "bad" /\ ~RepairTornTail THEN [t |-> "panic"]
+  ELSE [t |-> "stop"]
+\* one step of scanFile at slot offset o (element i starts at slot `at`).  Anything that is not the first slot of a
+\* record - the inside of a record, a hole, the end of the file - fails the checksum or is short: it reads as end of file.
+RECURSIVE StepAt(_, _, _, _)
+StepAt(F, i, at, o) == IF i > Len(F) \/ at > o THEN [t |-> "stop"]
+                       ELSE IF at < o THEN StepAt(F, i + 1, at + F[i].s, o)
+                       ELSE StepOn(F[i], o)
+ScanStep(w, o) == StepAt(FlatE(w), 1, 0, o)
+\* the whole scan as a function of the file, record by record: what a restart at this instant would redeliver
+RECURSIVE ScanWalk(_, _, _, _)
+ScanWalk(F, i, at, o) == IF i > Len(F) \/ at > o THEN <<>>
+                         ELSE IF at < o THEN ScanWalk(F, i + 1, at + F[i].s, o)
+                         ELSE LET st == StepOn(F[i], o) IN
+                              IF st.t = "rec" THEN <<st.r>> \o ScanWalk(F, i + 1, at + F[i].s, st.next) ELSE <<>>
+Scanned(w) == ScanWalk(FlatE(w), 1, 0, 0)
+\* the file cut back to slot offset off: the units (of a cut unit: the complete records) that end at or before it
+RECURSIVE CutAt(_, _)
+CutAt(w, off) ==
+  IF w = <<>> \/ off <= 0 THEN <<>>
+  ELSE LET u == w[1]  su == OffOf(Elems(u), Len(Elems(u)) + 1) IN
+       IF su <= off THEN <<u>> \o CutAt(Tail(w), off - su)
+       ELSE LET m == Cardinality({i \in 1..u.n : SlotsOf(SubSeq(u.recs, 1, i)) <= off}) IN
+            IF m = 0 THEN <<>> ELSE <<[recs |-> SubSeq(u.recs, 1, m), n |-> m, tail |-> "ok", w |-> 0]>>
+\* FileUtilsFlush(path, Offset, data): the unit lands at slot offset off - behind the end (a hole appears), at the end,
+\* or over what was there (a record that is partly overwritten is garbage from then on)
+PutAt(w, off, u) == LET c == CutAt(w, off)  t == TotalSlots(c) IN
+                    c \o (IF t < off THEN <<Hole(off - t)>> ELSE <<>>) \o <<u>>
+\* emptyFile (a fresh file when nothing is pending) + FileUtilsFlush + deliver.  A crash between them differs from a
+\* crash after them only in volatile state.
+WalAppend(recs) == LET fresh == Pending = <<>>
+                       off == IF fresh THEN 0 ELSE woff IN
+                   /\ wal' = PutAt(IF fresh THEN <<>> ELSE wal, off, Unit(recs))
+                   /\ woff' = off + SlotsOf(recs)
+                   /\ queue' = queue \o recs
+                   /\ edge' = edge + Edge(recs)
+Budget(recs) == edge + Edge(recs) <= MaxEdge
 
 (* ---- main thread ---- *)
 Running == rpc = "up"
-Insert(b) ==                                      \* Save of block b: its trie nodes go through the WAL before it is stable
+Insert(b, l) ==                                   \* Save of block b: its trie nodes go through the WAL before it is stable
   /\ Running /\ pc = "idle" /\ cur < NB /\ b = cur + 1
-  /\ WalAppend(<<R("trie", b, 1)>>)
+  /\ Budget(<<R("trie", b, 1, l)>>)
+  /\ WalAppend(<<R("trie", b, 1, l)>>)
   /\ cur' = b /\ pc' = "inserted"
-  /\ UNCHANGED <<wrec, wpc, file, pos, curDisk, curMem, ptr, ctx, rpc, completed, opened, crashes>>
-Batch(b) ==                                       \* blockCommit: block + accounts as one PutBatch
+  /\ UNCHANGED <<so, wrec, wpc, file, pos, curDisk, curMem, ptr, ctx, rpc, completed, opened, crashes>>
+Batch(b, l1, l2) ==                               \* blockCommit: block + accounts as one PutBatch
   /\ Running /\ pc = "inserted" /\ b = cur
-  /\ WalAppend(<<R("blk", b, 1), R("acct", b, 1)>>)
+  /\ Budget(<<R("blk", b, 1, l1), R("acct", b, 1, l2)>>)
+  /\ WalAppend(<<R("blk", b, 1, l1), R("acct", b, 1, l2)>>)
   /\ pc' = "ptr"
-  /\ UNCHANGED <<wrec, wpc, file, pos, curDisk, curMem, ptr, ctx, cur, rpc, completed, opened, crashes>>
+  /\ UNCHANGED <<so, wrec, wpc, file, pos, curDisk, curMem, ptr, ctx, cur, rpc, completed, opened, crashes>>
 SetPtr(b) ==
   /\ Running /\ pc = "ptr" /\ b = cur
   /\ ptr' = b /\ pc' = "ctxhead"
-  /\ UNCHANGED <<wal, queue, wrec, wpc, file, pos, curDisk, curMem, ctx, cur, rpc, completed, opened, crashes>>
+  /\ UNCHANGED <<wal, woff, so, queue, wrec, wpc, file, pos, curDisk, curMem, ctx, cur, rpc, completed, opened, crashes, edge>>
 CtxHead(b) ==                                     \* head rewritten in place: still the old list (stale but readable)
   /\ Running /\ pc = "ctxhead" /\ b = cur
   /\ pc' = "ctxbody"
-  /\ UNCHANGED <<wal, queue, wrec, wpc, file, pos, curDisk, curMem, ptr, ctx, cur, rpc, completed, opened, crashes>>
+  /\ UNCHANGED <<wal, woff, so, queue, wrec, wpc, file, pos, curDisk, curMem, ptr, ctx, cur, rpc, completed, opened, crashes, edge>>
 CtxBody(b) ==
   /\ Running /\ pc = "ctxbody" /\ b = cur
   /\ ctx' = b /\ pc' = "conf" /\ completed' = b
-  /\ UNCHANGED <<wal, queue, wrec, wpc, file, pos, curDisk, curMem, ptr, cur, rpc, opened, crashes>>
-Confirm(b) ==                                     \* SetConfirms on the stable block: the block record is rewritten
+  /\ UNCHANGED <<wal, woff, so, queue, wrec, wpc, file, pos, curDisk, curMem, ptr, cur, rpc, opened, crashes, edge>>
+Confirm(b, l) ==                                  \* SetConfirms on the stable block: the block record is rewritten
   /\ Running /\ pc = "conf" /\ b = cur
-  /\ WalAppend(<<R("blk", b, 2)>>)
+  /\ Budget(<<R("blk", b, 2, l)>>)
+  /\ WalAppend(<<R("blk", b, 2, l)>>)
   /\ pc' = "idle"
-  /\ UNCHANGED <<wrec, wpc, file, pos, curDisk, curMem, ptr, ctx, cur, rpc, completed, opened, crashes>>
+  /\ UNCHANGED <<so, wrec, wpc, file, pos, curDisk, curMem, ptr, ctx, cur, rpc, completed, opened, crashes>>
 SkipConfirm(b) ==
   /\ Running /\ pc = "conf" /\ b = cur
   /\ pc' = "idle"
-  /\ UNCHANGED <<wal, queue, wrec, wpc, file, pos, curDisk, curMem, ptr, ctx, cur, rpc, completed, opened, crashes>>
+  /\ UNCHANGED <<wal, woff, so, queue, wrec, wpc, file, pos, curDisk, curMem, ptr, ctx, cur, rpc, completed, opened, crashes, edge>>
 
-(* ---- async writer (runs whenever the process is up and the queue has been started: after RScan) ---- *)
+(* ---- async writer (runs whenever the process is up and the queue has been started: after the scan) ---- *)
 WriterOn == rpc \in {"up", "stable"}
 WTake ==
   /\ WriterOn /\ wpc = "idle" /\ queue # <<>>
   /\ wrec' = Head(queue) /\ queue' = Tail(queue) /\ wpc' = "data"
-  /\ UNCHANGED <<wal, file, pos, curDisk, curMem, ptr, ctx, pc, cur, rpc, completed, opened, crashes>>
-WData ==                                          \* data written at CurOffset: overwrites whatever a crashed Put left there
+  /\ UNCHANGED <<wal, woff, so, file, pos, curDisk, curMem, ptr, ctx, pc, cur, rpc, completed, opened, crashes, edge>>
+\* the padded record is written at CurOffset: it overwrites whatever a crashed Put (or a too short advance) left there
+RECURSIVE WriteAt(_, _, _, _)
+WriteAt(f, at, r, i) == IF i > Slots(r) THEN f
+                        ELSE LET c == [r |-> r, part |-> i] IN
+                             WriteAt(IF at + i <= Len(f) THEN [f EXCEPT ![at + i] = c] ELSE f \o <<c>>, at, r, i + 1)
+WData ==
   /\ WriterOn /\ wpc = "data"
-  /\ file' = IF curMem + 1 <= Len(file) THEN [file EXCEPT ![curMem + 1] = wrec] ELSE file \o <<wrec>>
+  /\ file' = WriteAt(file, curMem, wrec, 1)
   /\ wpc' = "pos"
-  /\ UNCHANGED <<wal, queue, wrec, pos, curDisk, curMem, ptr, ctx, pc, cur, rpc, completed, opened, crashes>>
+  /\ UNCHANGED <<wal, woff, so, queue, wrec, pos, curDisk, curMem, ptr, ctx, pc, cur, rpc, completed, opened, crashes, edge>>
 WPos ==
   /\ WriterOn /\ wpc = "pos"
   /\ pos' = [pos EXCEPT ![Key(wrec)] = curMem + 1] /\ wpc' = "cur"
-  /\ UNCHANGED <<wal, queue, wrec, file, curDisk, curMem, ptr, ctx, pc, cur, rpc, completed, opened, crashes>>
+  /\ UNCHANGED <<wal, woff, so, queue, wrec, file, curDisk, curMem, ptr, ctx, pc, cur, rpc, completed, opened, crashes, edge>>
 WCur ==                                           \* SetCurrentPos, then afterPut acknowledges the record
   /\ WriterOn /\ wpc = "cur"
-  /\ curDisk' = curMem + 1 /\ curMem' = curMem + 1 /\ wpc' = "idle" /\ wrec' = None
-  /\ UNCHANGED <<wal, queue, file, pos, ptr, ctx, pc, cur, rpc, completed, opened, crashes>>
+  /\ curDisk' = curMem + Advance(wrec) /\ curMem' = curMem + Advance(wrec) /\ wpc' = "idle" /\ wrec' = None
+  /\ UNCHANGED <<wal, woff, so, queue, file, pos, ptr, ctx, pc, cur, rpc, completed, opened, crashes, edge>>
 
 (* ---- faults ---- *)
 Alive == rpc # "down" /\ opened = "ok"
 Die == /\ crashes < MaxCrash /\ crashes' = crashes + 1
-       /\ rpc' = "down" /\ pc' = "down" /\ queue' = <<>> /\ wrec' = None /\ wpc' = "idle"
+       /\ rpc' = "down" /\ pc' = "down" /\ queue' = <<>> /\ wrec' = None /\ wpc' = "idle" /\ woff' = 0 /\ so' = 0
 Crash ==
   /\ Alive /\ Die
-  /\ UNCHANGED <<wal, file, pos, curDisk, curMem, ptr, ctx, cur, completed, opened>>
+  /\ UNCHANGED <<wal, file, pos, curDisk, curMem, ptr, ctx, cur, completed, opened, edge>>
 \* the process dies inside the tmp.data write of the next main-thread step: j complete records, then a partial one
-NextRecs == IF pc = "idle" /\ cur < NB THEN <<R("trie", cur + 1, 1)>>
-            ELSE IF pc = "inserted" THEN <<R("blk", cur, 1), R("acct", cur, 1)>>
-            ELSE IF pc = "conf" THEN <<R("blk", cur, 2)>> ELSE <<>>
-TornWalCrash(j, tail) ==
-  /\ Alive /\ Running /\ NextRecs # <<>> /\ j \in 0..(Len(NextRecs) - 1) /\ tail \in {"eof", "bad", "zero"}
-  /\ wal' = (IF Pending = <<>> THEN <<>> ELSE wal) \o <<[recs |-> NextRecs, n |-> j, tail |-> tail]>>
+NextRecs(l1, l2) == IF pc = "idle" /\ cur < NB THEN <<R("trie", cur + 1, 1, l1)>>
+                    ELSE IF pc = "inserted" THEN <<R("blk", cur, 1, l1), R("acct", cur, 1, l2)>>
+                    ELSE IF pc = "conf" THEN <<R("blk", cur, 2, l1)>> ELSE <<>>
+TornWalCrash(j, tail, l1, l2) ==
+  LET recs == NextRecs(l1, l2)
+      fresh == Pending = <<>> IN
+  /\ Alive /\ Running /\ recs # <<>> /\ j \in 0..(Len(recs) - 1) /\ tail \in {"eof", "bad", "zero"}
+  /\ (Len(recs) = 1 => l2 = "below")
+  /\ Budget(recs) /\ edge' = edge + Edge(recs)
+  /\ wal' = PutAt(IF fresh THEN <<>> ELSE wal, IF fresh THEN 0 ELSE woff, [recs |-> recs, n |-> j, tail |-> tail, w |-> 0])
   /\ Die
   /\ UNCHANGED <<file, pos, curDisk, curMem, ptr, ctx, cur, completed, opened>>
 TornCtxCrash ==                                   \* in-place rewrite of context.data interrupted
   /\ Alive /\ Running /\ pc \in {"ctxhead", "ctxbody"}
   /\ ctx' = IF RepairAtomicContext THEN ctx ELSE TORN      \* write-new + rename: the old file stays whole
   /\ Die
-  /\ UNCHANGED <<wal, file, pos, curDisk, curMem, ptr, cur, completed, opened>>
+  /\ UNCHANGED <<wal, file, pos, curDisk, curMem, ptr, cur, completed, opened, edge>>
 
 (* ---- recovery: NewChainDataBase, one action per step so that a crash during recovery is an interleaving ---- *)
 RStart ==
   /\ rpc = "down" /\ opened = "ok"
   /\ rpc' = "ctx"
-  /\ UNCHANGED <<wal, queue, wrec, wpc, file, pos, curDisk, curMem, ptr, ctx, pc, cur, completed, opened, crashes>>
-RLoadCtx ==                                       \* NewRunContext: a torn context.data panics
+  /\ UNCHANGED <<wal, woff, so, queue, wrec, wpc, file, pos, curDisk, curMem, ptr, ctx, pc, cur, completed, opened, crashes, edge>>
+RLoadCtx ==                                       \* NewRunContext: a torn context.data panics.  Then the bitcasks reopen at CurrentPos
   /\ rpc = "ctx" /\ opened = "ok"
-  /\ IF ctx = TORN THEN opened' = "panic" /\ rpc' = rpc ELSE opened' = opened /\ rpc' = "scan"
-  /\ UNCHANGED <<wal, queue, wrec, wpc, file, pos, curDisk, curMem, ptr, ctx, pc, cur, completed, crashes>>
+  /\ IF ctx = TORN THEN opened' = "panic" /\ rpc' = rpc /\ curMem' = curMem
+                   ELSE opened' = opened /\ rpc' = "scan" /\ curMem' = curDisk
+  /\ UNCHANGED <<wal, woff, so, queue, wrec, wpc, file, pos, curDisk, ptr, ctx, pc, cur, completed, crashes, edge>>
 BlocksIn(recs) == {r.b : r \in {x \in ToSet(recs) : x.k = "blk" /\ ~x.bad}}
 Max(S) == CHOOSE x \in S : \A y \in S : y <= x
-RScan ==                                          \* bitcasks reopen at CurrentPos; scanFile redelivers tmp.data
+RScanRec ==                                       \* scanFile: one record read at the scan offset, redelivered, offset advanced
   /\ rpc = "scan" /\ opened = "ok"
-  /\ curMem' = curDisk
-  /\ IF RepairTornTail
-     THEN /\ wal' = CompleteUnits(wal) /\ opened' = opened /\ rpc' = "stable"
-          /\ queue' = Flatten(CompleteUnits(wal))
-     ELSE /\ wal' = wal
-          /\ IF \E i \in 1..Len(wal) : wal[i].tail = "bad"
-             THEN opened' = "panic" /\ rpc' = rpc /\ queue' = queue
-             ELSE opened' = opened /\ rpc' = "stable" /\ queue' = Flatten(wal)
-  /\ IF RepairScanPromotes /\ BlocksIn(queue') # {} /\ Max(BlocksIn(queue')) >= ptr
-     THEN ptr' = Max(BlocksIn(queue')) /\ ctx' = Max(BlocksIn(queue'))
-     ELSE ptr' = ptr /\ ctx' = ctx
-  /\ UNCHANGED <<wrec, wpc, file, pos, curDisk, pc, cur, completed, crashes>>
+  /\ LET st == ScanStep(wal, so) IN
+       /\ st.t = "rec"
+       /\ queue' = queue \o <<st.r>> /\ so' = st.next
+  /\ UNCHANGED <<wal, woff, wrec, wpc, file, pos, curDisk, curMem, ptr, ctx, pc, cur, rpc, completed, opened, crashes, edge>>
+RScanEnd ==                                       \* the read at the scan offset is no record: the scan ends, Offset stays there
+  /\ rpc = "scan" /\ opened = "ok"
+  /\ LET st == ScanStep(wal, so) IN
+       /\ st.t # "rec"
+       /\ IF st.t = "panic"
+          THEN /\ opened' = "panic" /\ UNCHANGED <<wal, woff, so, rpc, ptr, ctx>>
+          ELSE /\ opened' = opened /\ rpc' = "stable" /\ woff' = so /\ so' = 0
+               /\ wal' = IF RepairTornTail THEN CutAt(wal, so) ELSE wal         \* repair: truncate to what was accepted
+               /\ IF RepairScanPromotes /\ BlocksIn(queue) # {} /\ Max(BlocksIn(queue)) >= ptr
+                  THEN ptr' = Max(BlocksIn(queue)) /\ ctx' = Max(BlocksIn(queue))
+                  ELSE ptr' = ptr /\ ctx' = ctx
+  /\ UNCHANGED <<queue, wrec, wpc, file, pos, curDisk, curMem, pc, cur, completed, crashes, edge>>
 RStable ==                                        \* GetStableBlock: the stable block must decode
   /\ rpc = "stable" /\ opened = "ok"
   /\ IF ptr > 0 /\ ~Good(Read(<<"blk", ptr>>))
      THEN opened' = "panic" /\ rpc' = rpc /\ pc' = pc /\ cur' = cur
      ELSE opened' = opened /\ rpc' = "up" /\ pc' = "idle" /\ cur' = ptr
-  /\ UNCHANGED <<wal, queue, wrec, wpc, file, pos, curDisk, curMem, ptr, ctx, completed, crashes>>
+  /\ UNCHANGED <<wal, woff, so, queue, wrec, wpc, file, pos, curDisk, curMem, ptr, ctx, completed, crashes, edge>>
 
-Next == \/ \E b \in 1..NB : Insert(b) \/ Batch(b) \/ SetPtr(b) \/ CtxHead(b) \/ CtxBody(b) \/ Confirm(b) \/ SkipConfirm(b)
+LC == IF edge >= MaxEdge THEN {"below"} ELSE LenClasses         \* (the budget is spent: nothing else is enabled anyway)
+Next == \/ \E b \in 1..NB : SetPtr(b) \/ CtxHead(b) \/ CtxBody(b) \/ SkipConfirm(b)
+        \/ \E b \in 1..NB : \E l \in LC : Insert(b, l)
+        \/ \E b \in 1..NB : \E l \in LC : Confirm(b, l)
+        \/ \E b \in 1..NB : \E l1 \in LC : \E l2 \in LC : Batch(b, l1, l2)
         \/ WTake \/ WData \/ WPos \/ WCur
-        \/ Crash \/ TornCtxCrash \/ \E j \in 0..1, t \in {"eof", "bad", "zero"} : TornWalCrash(j, t)
-        \/ RStart \/ RLoadCtx \/ RScan \/ RStable
+        \/ Crash \/ TornCtxCrash
+        \/ \E j \in 0..1 : \E t \in {"eof", "bad", "zero"} : \E l1 \in LC : \E l2 \in LC : TornWalCrash(j, t, l1, l2)
+        \/ RStart \/ RLoadCtx \/ RScanRec \/ RScanEnd \/ RStable
 Spec == Init /\ [][Next]_vars
 
 (* ---- C08 ---- *)
@@ -199,13 +304,31 @@ Opens == opened = "ok"
 StableNotOlder == ptr >= completed
 \* that block, its ancestors, their trie nodes: readable once the node is up ...
 StableClosed == rpc = "up" => \A b \in 1..ptr : Good(Read(<<"blk", b>>)) /\ Good(Read(<<"trie", b>>))
-\* ... and at every instant recoverable from what is on disk (position index + data file, or tmp.data)
-OnDisk(key) == LET w == LastWith(Flatten(CompleteUnits(wal)), key) IN Good(w) \/ (w = None /\ Good(DiskRead(key)))
-DurablyClosed == \A b \in 1..ptr : OnDisk(<<"blk", b>>) /\ OnDisk(<<"trie", b>>)
+\* ... and at every instant recoverable from what is on disk: found by the record-by-record scan of tmp.data as it
+\* is now, or through the position index in the data file
+OnDisk(S, key) == LET w == LastWith(S, key) IN Good(w) \/ (w = None /\ Good(DiskRead(key)))
+DurablyClosed == ptr > 0 => LET S == Scanned(wal) IN \A b \in 1..ptr : OnDisk(S, <<"blk", b>>) /\ OnDisk(S, <<"trie", b>>)
+\* every record whose write has returned and that the writer has not yet moved is found by that scan (nothing pending
+\* hides behind a boundary record), in the order it was written
+RECURSIVE IsSubSeq(_, _)
+IsSubSeq(a, b) == IF a = <<>> THEN TRUE ELSE IF b = <<>> THEN FALSE
+                  ELSE IF a[1] = b[1] THEN IsSubSeq(Tail(a), Tail(b)) ELSE IsSubSeq(a, Tail(b))
+PendingScanned == (rpc \in {"stable", "up"} /\ Pending # <<>>) => IsSubSeq(Pending, Scanned(wal))
+\* after the scan the append offset is the end of the records in the file: the next write neither leaves a hole nor
+\* overwrites a record
+RECURSIVE RecPrefix(_)
+RecPrefix(F) == IF F = <<>> \/ F[1].t # "rec" THEN 0 ELSE F[1].s + RecPrefix(Tail(F))
+OffsetAtEnd == (RepairTornTail /\ rpc \in {"stable", "up"}) => LET F == FlatE(wal) IN woff = RecPrefix(F) /\ woff = OffOf(F, Len(F) + 1)
+\* the three tmp.data clauses in one pass over the file (the big design configurations list this one)
+WalClauses == LET F == FlatE(wal)  S == ScanWalk(F, 1, 0, 0) IN
+              /\ \A b \in 1..ptr : OnDisk(S, <<"blk", b>>) /\ OnDisk(S, <<"trie", b>>)
+              /\ (rpc \in {"stable", "up"} /\ Pending # <<>>) => IsSubSeq(Pending, S)
+              /\ (RepairTornTail /\ rpc \in {"stable", "up"}) => woff = RecPrefix(F) /\ woff = OffOf(F, Len(F) + 1)
 \* the account data is as of exactly the stable block whenever no promotion is in progress
 AcctAsOf == LET r == Read(<<"acct", 0>>) IN IF r = None THEN 0 ELSE IF r.bad THEN TORN ELSE r.b
 AccountsExact == (rpc = "up" /\ pc \in {"idle", "inserted", "conf"}) => AcctAsOf = ptr
 \* the persisted candidate list is that of the stable block whenever no promotion is in progress
 ContextFresh == (rpc = "up" /\ pc \in {"idle", "inserted", "conf"}) => ctx = ptr
 TypeOK == /\ ptr \in 0..NB /\ ctx \in 0..TORN /\ cur \in 0..NB /\ curDisk <= Len(file) /\ curMem <= Len(file)
+          /\ edge \in 0..MaxEdge /\ so <= TotalSlots(wal) + 1
 ====
